@@ -238,29 +238,40 @@ theorem step_pos {α : Type} {r : Reader} {w : Nat} {call : Nat → Res α} {v r
   split at h <;> simp at h
   rw [← h.2]
 
+/-- (The proof covers both forms of the shared `Reader.readBytes`: byte-by-byte and, after the
+`read_bytes` repair in `/repo`, one positional range read.) -/
 theorem readBytes_pos {a : BinArchive} :
     ∀ (n : Nat) (r : Reader) {v r'}, r.readBytes a n = .ok (v, r') → r'.pos = r.pos + n := by
-  intro n
-  induction n with
-  | zero => intro r v r' h; simp [Reader.readBytes] at h; rw [h.2]; rfl
-  | succ n ih =>
-    intro r v r' h
-    unfold Reader.readBytes at h
-    cases h1 : r.readU8 a with
-    | ok x =>
-      obtain ⟨b, r1⟩ := x
-      rw [h1] at h; simp only at h
-      cases h2 : r1.readBytes a n with
-      | ok y =>
-        obtain ⟨vs, r2⟩ := y
-        rw [h2] at h; simp only [Res.ok.injEq, Prod.mk.injEq] at h
-        have := ih _ h2
-        have := step_pos h1
-        rw [← h.2]; omega
-      | err e => rw [h2] at h; simp at h
-      | panic => rw [h2] at h; simp at h
-    | err e => rw [h1] at h; simp at h
-    | panic => rw [h1] at h; simp at h
+  first
+  | (intro n
+     induction n with
+     | zero => intro r v r' h; simp [Reader.readBytes] at h; rw [h.2]; rfl
+     | succ n ih =>
+       intro r v r' h
+       unfold Reader.readBytes at h
+       cases h1 : r.readU8 a with
+       | ok x =>
+         obtain ⟨b, r1⟩ := x
+         rw [h1] at h; simp only at h
+         cases h2 : r1.readBytes a n with
+         | ok y =>
+           obtain ⟨vs, r2⟩ := y
+           rw [h2] at h; simp only [Res.ok.injEq, Prod.mk.injEq] at h
+           have := ih _ h2
+           have := step_pos h1
+           rw [← h.2]; omega
+         | err e => rw [h2] at h; simp at h
+         | panic => rw [h2] at h; simp at h
+       | err e => rw [h1] at h; simp at h
+       | panic => rw [h1] at h; simp at h)
+  | (intro n r v r' h
+     unfold Reader.readBytes at h
+     split at h
+     · rename_i h0
+       simp only [Res.ok.injEq, Prod.mk.injEq] at h
+       rw [← h.2, h0]; rfl
+     · split at h <;> simp at h
+       rw [← h.2])
 
 theorem readU8_lt {a : BinArchive} {r : Reader} {v r'} (h : r.readU8 a = .ok (v, r')) :
     r.pos < a.size := by
